@@ -2,7 +2,7 @@
 # usage: tools/seedtest.sh <seed dir with patch.diff> <PROP>...   -> runs ./check PROP (quick) with the patch applied to /repo
 # holds /verif/.work/repo.lock for apply -> checks -> revert.  Appends one line per property to <seed dir>/result.txt
 cd /verif
-d="$1"; shift
+d=$(realpath "$1"); shift
 exec 8>.work/repo.lock; flock 8
 if ! git -C /repo diff --quiet; then echo "REPO DIRTY before seed test: $(git -C /repo status --short | tr '\n' ' ')"; exit 2; fi
 if ! git -C /repo apply "$d/patch.diff"; then echo "patch does not apply: $d"; exit 2; fi
